@@ -382,6 +382,13 @@ impl Property for C12 {
             3 => (distinct_keys(1, 3, true), proptest::collection::vec((0usize..3, 0u8..4), 1..4), any::<bool>())
                 .prop_map(|(keys, filing, lie_keyid)| Spec::Table { keys, filing, lie_keyid }),
             2 => (proptest::collection::vec(noise(), 1..4), pool_key()).prop_map(|(prelude, key)| Spec::After { prelude, key }),
+            // cardinality tail: key tables with 17-70 keys, most of them filed under a wrong identifier
+            1 => (prop_oneof![Just(17usize), Just(20), Just(33), Just(70)], any::<u8>(), any::<bool>()).prop_flat_map(|(n, seed, lie_keyid)| {
+                crate::gen::world::many_keys(n).prop_map(move |keys| {
+                    let filing = (0..keys.len()).map(|i| (i, if (i + seed as usize) % 5 == 0 { 0u8 } else { 1 + ((i + seed as usize) % 3) as u8 })).collect();
+                    Spec::Table { keys, filing, lie_keyid }
+                })
+            }),
         ]
         .boxed()
     }
